@@ -93,6 +93,21 @@ func throughConverters(call *ssa.Call, argIdx int) bool {
 	return core.IsFunc(f, "go-ipa", "domainToFr")
 }
 
+// viaConverters: domainToFr passes its argument to its result; the field setters pass theirs to the receiver.
+func viaConverters(call *ssa.Call, argIdx int) (ssa.Value, bool) {
+	f := core.Callee(call.Common())
+	if core.IsFunc(f, "go-ipa", "domainToFr") {
+		return call, true
+	}
+	if f != nil && argIdx >= 1 && len(call.Call.Args) == 2 && core.IsMethod(f, "bandersnatch/fr", "Element", f.Name()) {
+		switch f.Name() {
+		case "SetUint64", "Set", "SetBytes", "SetBytesLE", "SetBigInt":
+			return call.Call.Args[0], true
+		}
+	}
+	return nil, false
+}
+
 // fieldAddrs of fn whose field is named `field` and whose base derives from parameter `param`.
 func fieldAddrs(fn *ssa.Function, param, field string) []ssa.Value {
 	var out []ssa.Value
@@ -143,6 +158,11 @@ func RuleF3(c *Ctx) {
 	n := 0
 	for _, cp := range comps {
 		fn := c.P.Fn(cp.rel, "", cp.fn)
+		if fn == nil && cp.fn == "generateChallenges" {
+			// the helper may have been folded into its only caller
+			fn = c.P.Fn(cp.rel, "", "CheckIPAProof")
+			cp.fn = "CheckIPAProof"
+		}
 		if fn == nil {
 			c.Unresolved("F3", cp.fn)
 			continue
@@ -169,7 +189,7 @@ func RuleF3(c *Ctx) {
 				continue
 			}
 			for _, s := range sources {
-				if core.FlowsTo(s, ab.msg, throughConverters) {
+				if core.FlowsToVia(s, ab.msg, viaConverters) {
 					a := ab
 					hit = &a
 				}
@@ -279,6 +299,9 @@ func ruleTuples(rule string, tuples []tupleSpec, floor int, only ...string) Rule
 				continue
 			}
 			fn := c.P.Fn(ts.rel, ts.recv, ts.fn)
+			if fn == nil && ts.fn == "generateChallenges" && c.P.Fn(ts.rel, "", "CheckIPAProof") != nil {
+				continue // folded into CheckIPAProof, whose own tuple covers proof.L, proof.R and challenges
+			}
 			if fn == nil {
 				c.Unresolved(rule, ts.fn)
 				continue
@@ -368,6 +391,30 @@ func ruleTuples(rule string, tuples []tupleSpec, floor int, only ...string) Rule
 							if io != nil && stack[i].v == io {
 								encl = &stack[i]
 								break
+							}
+						}
+						// an index variable defined once, inside the loop, from that loop's variable (i := n - k): the members
+						// of the tuple still meet at the same position as long as they all use it
+						if encl == nil && io != nil {
+							if def := singleDef(info, fd, io); def != nil {
+								var from []types.Object
+								ast.Inspect(def, func(n ast.Node) bool {
+									if id, ok := n.(*ast.Ident); ok {
+										for _, lc := range stack {
+											if lc.v != nil && info.Uses[id] == lc.v {
+												from = append(from, lc.v)
+											}
+										}
+									}
+									return true
+								})
+								if len(from) == 1 {
+									for i := len(stack) - 1; i >= 0; i-- {
+										if stack[i].v == from[0] && stack[i].node.Pos() <= io.Pos() && io.Pos() <= stack[i].node.End() {
+											encl = &stack[i]
+										}
+									}
+								}
 							}
 						}
 						switch {
